@@ -501,10 +501,14 @@ class BaseOrchestrator(ABC):
         #     it should try to finish all the calls in this function
 
         # TODO store Retry exception on Retry status
+        # Count the retry before the invocation becomes claimable again: RETRY is an
+        # available status (a runner can claim a waited-on invocation in RETRY without
+        # going through the queue) and the next attempt reads this counter to decide
+        # whether it may retry once more.
+        self.app.orchestrator.increment_invocation_retries(invocation_id)
         self.app.orchestrator.set_invocation_status(
             invocation_id, InvocationStatus.RETRY, runner_ctx
         )
-        self.app.orchestrator.increment_invocation_retries(invocation_id)
         self.app.broker.route_invocation(invocation_id)
 
     def is_candidate_to_run_by_concurrency_control(
